@@ -307,6 +307,16 @@ func genSchema(repo string) (string, error) {
 				}
 			}
 		}
+		// a value handed in by pointer is filled by this function as well (parseParagraphInto(decoder, formula *MathParagraph))
+		if fd.Type.Params != nil {
+			for _, prm := range fd.Type.Params.List {
+				if se, ok := prm.Type.(*ast.StarExpr); ok {
+					if id, ok := se.X.(*ast.Ident); ok {
+						built[id.Name] = true
+					}
+				}
+			}
+		}
 		for tn := range built {
 			if _, ok := types[tn]; !ok {
 				continue
